@@ -288,8 +288,24 @@ def run_case(case):
                 probe.attempt(nu.reorder_fields, arr, _container(rng, s))
             else:
                 probe.attempt(nu.remove_fields, arr, _container(rng, s, ("scalar", "list")))
-        # invalid / non-strict requests
+        # invalid / non-strict requests: an unrelated name and near misses of existing names (longer and shorter spellings,
+        # other case, trailing blank) - the longest existing name gets a suffix too
         bogus = "nope"
+        longest = max(names, key=len)
+        near = [c for c in (longest + "x", longest + "_err", names[0] + "2", names[-1][:-1], names[0].swapcase(), names[0] + " ",
+                            longest + longest) if c and c not in names]
+        for nm in [near[int(i)] for i in rng.permutation(len(near))[:3]] if near else []:
+            if fam == "extract":
+                probe.attempt(nu.extract_fields, arr, [names[0], nm])
+                probe.attempt(nu.extract_fields, arr, _container(rng, [nm, names[-1]]), strict=False)
+                probe.attempt(nu.extract_fields, arr, nm)
+            elif fam == "reorder":
+                probe.attempt(nu.reorder_fields, arr, _container(rng, [nm]))
+                probe.attempt(nu.reorder_fields, arr, _container(rng, [names[-1], nm]), strict=False)
+                probe.attempt(nu.reorder_fields, arr, nm, strict=False)
+            else:
+                probe.attempt(nu.remove_fields, arr, [nm])
+                probe.attempt(nu.remove_fields, arr, nm)
         if fam == "extract":
             probe.attempt(nu.extract_fields, arr, [names[0], bogus])
             probe.attempt(nu.extract_fields, arr, [names[0], bogus], strict=False)
@@ -387,6 +403,7 @@ def run_case(case):
         s = [names[i] for i in rng.permutation(len(names))[:k]]
         probe.attempt(nu.split_fields, arr, fields=s if (k > 1 or rng.random() < .5) else s[0], getnames=bool(rng.integers(0, 2)))
         probe.attempt(nu.split_fields, arr, fields=["nope"])
+        probe.attempt(nu.split_fields, arr, fields=[max(names, key=len) + "x"])
     elif fam == "compare":
         shape = arr.shape
         arr = gen.rand_table(rng, shape, kinds=gen.INTS + ["S", "U", "?"], maxsub=2)
